@@ -9,6 +9,19 @@ VERIF = os.path.dirname(os.path.dirname(os.path.abspath(__file__)))
 REPO = "/repo"
 
 
+FIRST_MISSED = {
+    "C14a": "C14-S1/C01-V1 fee-looked-up-for-the-reduced-asset (the pending fee must be looked up by the id of the asset whose balance it reduces)",
+    "C12a": "C12-L3 now requires a latest-entry accessor of asset_history (last_key_value / next_back), not any dependence on asset_history",
+    "C17b": "C17-P4 (each flag stored by update_config comes from the same-named request field) was planned in DESIGN but not built",
+    "C19a": "C19-R1 now also covers the pagination cursor closures (calc_range_start / trio_calc_range_start must sort like the key functions)",
+    "C05b": "C05-V2 (deposit excluded from the pricing balance iff it has already arrived; provenance evaluated per asset-kind configuration)",
+    "C13b": "C13-W1 now requires the weight to be read, saved, recorded in history and the position stored under one and the same address",
+    "C09b": "C09-D5 (the expiring epoch is selected from exactly the claimable window: sibling multiset comparison with get_claimable_epochs)",
+    "C03b": "C03 was declared not applicable; the wiring-only check C03-Y3 (operand order of the stableswap mint helper) was added afterwards",
+    "C03a": "C03 was declared not applicable; caught by C14-S3 decimals table at first sight, and by C03-Y2 once C03 existed",
+}
+
+
 def sh(cmd, cwd=VERIF):
     p = subprocess.run(cmd, cwd=cwd, shell=True, capture_output=True, text=True)
     return p.returncode, p.stdout + p.stderr
@@ -45,6 +58,13 @@ def main():
                 elif rc != 0:
                     hits[p] = ["TOOL-FAILURE rc=%d: %s" % (rc, out[-300:])]
             summary[i] = {"property": prop, "detected": bool(hits.get(prop)), "hits": hits}
+            meta["detected_by"] = {p_: v_[:6] for p_, v_ in hits.items()}
+            meta["detected"] = bool(hits.get(prop))
+            if i in FIRST_MISSED:
+                meta["detection_history"] = "missed by the first version of the check; caught after strengthening: " + FIRST_MISSED[i]
+            elif "detection_history" not in meta:
+                meta["detection_history"] = "caught at first sight by the check as it stood when the change was produced"
+            json.dump(meta, open(os.path.join(d, "meta.json"), "w"), indent=1)
             print(i, prop, "DETECTED" if hits.get(prop) else "missed", {k: len(v) for k, v in hits.items()})
             for p, v in hits.items():
                 for k in v[:4]:
